@@ -1204,75 +1204,99 @@ func ruleC19NilField(c *Checker) {
 			if _, isPtrRecv := g.Signature.Recv().Type().(*types.Pointer); !isPtrRecv {
 				continue
 			}
-			fa, ok := fieldLoad(cl.Call.Args[0])
-			if !ok || !nilChecked[fieldOf(fa)] {
-				continue
+			// the receiver: the field as loaded here, or — `re, err := r.compiled()` once the accessor is in
+			// place — a choice between loads of it, each of which is judged where it was made
+			type fuse struct {
+				fa  *ssa.FieldAddr
+				blk *ssa.BasicBlock
 			}
-			n++
-			F := fieldOf(fa)
-			base := canon(fa.X)
-			// not-nil edges of tests of this field of the same object
-			tE, fE := condEdges(fn, func(v ssa.Value) bool {
-				bo, ok := v.(*ssa.BinOp)
-				if !ok || (bo.Op != token.EQL && bo.Op != token.NEQ) {
-					return false
-				}
-				var other ssa.Value
-				switch {
-				case isNilConst(bo.X):
-					other = bo.Y
-				case isNilConst(bo.Y):
-					other = bo.X
-				default:
-					return false
-				}
-				f2, ok := fieldLoad(other)
-				return ok && fieldOf(f2) == F && canon(f2.X) == base
-			})
-			var cut []Edge
-			for _, e := range tE {
-				if ifi, ok := e.From.Instrs[len(e.From.Instrs)-1].(*ssa.If); ok {
-					cnd, neg := stripNot(ifi.Cond)
-					if bo, ok := cnd.(*ssa.BinOp); ok && (bo.Op == token.NEQ) != neg {
-						cut = append(cut, e)
+			var uses []fuse
+			if fa, ok := fieldLoad(cl.Call.Args[0]); ok {
+				uses = append(uses, fuse{fa, cl.Block()})
+			} else if ph, ok := canon(cl.Call.Args[0]).(*ssa.Phi); ok {
+				for _, e := range ph.Edges {
+					if fa, ok := fieldLoad(e); ok {
+						if ld, ok := canon(e).(*ssa.UnOp); ok {
+							uses = append(uses, fuse{fa, ld.Block()})
+						}
 					}
 				}
 			}
-			for _, e := range fE {
-				if ifi, ok := e.From.Instrs[len(e.From.Instrs)-1].(*ssa.If); ok {
-					cnd, neg := stripNot(ifi.Cond)
-					if bo, ok := cnd.(*ssa.BinOp); ok && (bo.Op == token.EQL) != neg {
-						cut = append(cut, e)
-					}
-				}
-			}
-			// ok edges of initialiser calls on the same object
-			for _, c2 := range callsIn(fn) {
-				ic, ok := c2.(*ssa.Call)
-				if !ok || len(ic.Call.Args) == 0 || canon(ic.Call.Args[0]) != base {
+			for _, u := range uses {
+				fa, useBlk := u.fa, u.blk
+				if !nilChecked[fieldOf(fa)] {
 					continue
 				}
-				h := ic.Common().StaticCallee()
-				if h == nil || !p.InModule(h) || len(h.Params) == 0 {
-					continue
-				}
-				recv := h.Params[0]
-				sets := p.helperAlways(h, func(in ssa.Instruction) bool {
-					st, ok := in.(*ssa.Store)
-					if !ok || isNilConst(st.Val) {
+				n++
+				F := fieldOf(fa)
+				base := canon(fa.X)
+				// not-nil edges of tests of this field of the same object
+				tE, fE := condEdges(fn, func(v ssa.Value) bool {
+					bo, ok := v.(*ssa.BinOp)
+					if !ok || (bo.Op != token.EQL && bo.Op != token.NEQ) {
 						return false
 					}
-					f3, ok := st.Addr.(*ssa.FieldAddr)
-					return ok && fieldOf(f3) == F && canon(f3.X) == ssa.Value(recv)
-				}, 0)
-				if !sets {
-					continue
+					var other ssa.Value
+					switch {
+					case isNilConst(bo.X):
+						other = bo.Y
+					case isNilConst(bo.Y):
+						other = bo.X
+					default:
+						return false
+					}
+					f2, ok := fieldLoad(other)
+					return ok && fieldOf(f2) == F && canon(f2.X) == base
+				})
+				var cut []Edge
+				for _, e := range tE {
+					if ifi, ok := e.From.Instrs[len(e.From.Instrs)-1].(*ssa.If); ok {
+						cnd, neg := stripNot(ifi.Cond)
+						if bo, ok := cnd.(*ssa.BinOp); ok && (bo.Op == token.NEQ) != neg {
+							cut = append(cut, e)
+						}
+					}
 				}
-				okE, _ := okEdgesOfCall(ic)
-				cut = append(cut, okE...)
+				for _, e := range fE {
+					if ifi, ok := e.From.Instrs[len(e.From.Instrs)-1].(*ssa.If); ok {
+						cnd, neg := stripNot(ifi.Cond)
+						if bo, ok := cnd.(*ssa.BinOp); ok && (bo.Op == token.EQL) != neg {
+							cut = append(cut, e)
+						}
+					}
+				}
+				// ok edges of initialiser calls on the same object
+				for _, c2 := range callsIn(fn) {
+					ic, ok := c2.(*ssa.Call)
+					if !ok || len(ic.Call.Args) == 0 || canon(ic.Call.Args[0]) != base {
+						continue
+					}
+					h := ic.Common().StaticCallee()
+					if h == nil || !p.InModule(h) || len(h.Params) == 0 {
+						continue
+					}
+					recv := h.Params[0]
+					sets := p.helperAlways(h, func(in ssa.Instruction) bool {
+						st, ok := in.(*ssa.Store)
+						if !ok || isNilConst(st.Val) {
+							return false
+						}
+						f3, ok := st.Addr.(*ssa.FieldAddr)
+						return ok && fieldOf(f3) == F && canon(f3.X) == ssa.Value(recv)
+					}, 0)
+					if !sets {
+						continue
+					}
+					okE, _ := okEdgesOfCall(ic)
+					cut = append(cut, okE...)
+				}
+				okG := len(cut) > 0 && p.guardedC(useBlk, cut)
+				what := "use of " + F.Name() + " as receiver of " + shortCallee(fullName(calleeObj(cl)))
+				if len(uses) > 1 {
+					what += fmt.Sprintf(" (value read in block %d)", useBlk.Index)
+				}
+				c.check(okG, R, p.FuncName(fn), what, p.Pos(cl.Pos()), "reached only past a not-nil test of the field or a successful initialiser", "the field "+F.Name()+" is nil-checked elsewhere (it is set lazily) but is used here on a path where it is not known to be set — e.g. guarded by a flag that is raised before the initialiser has succeeded: after a failed initialisation the next call dereferences nil and panics")
 			}
-			okG := len(cut) > 0 && p.guardedC(cl.Block(), cut)
-			c.check(okG, R, p.FuncName(fn), "use of "+F.Name()+" as receiver of "+shortCallee(fullName(calleeObj(cl))), p.Pos(cl.Pos()), "reached only past a not-nil test of the field or a successful initialiser", "the field "+F.Name()+" is nil-checked elsewhere (it is set lazily) but is used here on a path where it is not known to be set — e.g. guarded by a flag that is raised before the initialiser has succeeded: after a failed initialisation the next call dereferences nil and panics")
 		}
 	}
 	c.check(n > 0, R, "-", "uses of lazily initialised fields", "-", fmt.Sprintf("%d use(s) examined", n), "no use of a nil-checked pointer field as a method receiver found (the rule has no instance)")
